@@ -68,6 +68,27 @@ def generate(rng, tier, stats):
         c["ops"] = ops
         wprop.bump(stats, "containers", len(conts))
         out.append(c)
+    # one setting with two containers selecting every node; one node overrides the FIRST container by annotation and already
+    # runs a pod (so the comparison runs for it), the others get their pods in the same sync: each pod is built from the
+    # setting as it is stored, whatever was compared before
+    for i in range(30 if tier == "quick" else 400):
+        c = worldgen.gen_ers_world(rng, stats, {"scenario": "active", "open_gates": True, "no_faults": True, "containers": ("main", "side"),
+                                                "n": rng.choice([3, 4, 6]), "classes": ["none", "none", "uptodate_ready", "old_ready"],
+                                                "strategy": {"maxUnavailable": "100%", "slowStartAdditiveIncrease": "100%", "maxParallelPodCreation": 250},
+                                                "annotations": {}})
+        c["objects"] = [o for o in c["objects"] if o["kind"] != "ExtendedDaemonsetSetting"]
+        nodes = [o for o in c["objects"] if o["kind"] == "Node"]
+        for nd in nodes:
+            nd["metadata"].setdefault("labels", {})["pool"] = "all"
+            nd.get("spec", {}).pop("taints", None)
+        c["objects"].append(K.setting(worldgen.NS, "both", worldgen.EDS, {"matchLabels": {"pool": "all"}},
+                                      [("main", {"requests": {"cpu": "200m"}}), ("side", {"requests": {"cpu": "300m"}})], status="valid"))
+        with_pod = set(o["spec"].get("nodeName") for o in c["objects"] if o["kind"] == "Pod")
+        cands = [nd for nd in nodes if nd["metadata"]["name"] in with_pod] or nodes
+        key = "%s%s.%s.%s" % (P.RES_PREFIX, worldgen.NS, worldgen.EDS, "main")
+        rng.choice(cands)["metadata"].setdefault("annotations", {})[key] = json.dumps({"requests": {"cpu": "50m"}})
+        wprop.bump(stats, "two-container setting + override of the first container", "yes")
+        out.append(c)
     return out
 
 
